@@ -473,6 +473,261 @@ fn corruption_body(c: &Corruption, ctx: &mut CaseCtx) -> PropResult {
 }
 
 // ---------------------------------------------------------------------------
+// the regeneration pipeline of rbx_reflector (a binary-only crate: its two pipeline modules are
+// compiled into the harness from the working tree)
+
+#[allow(dead_code)]
+#[path = "/repo/rbx_reflector/src/defaults.rs"]
+mod reflector_defaults;
+#[allow(dead_code)]
+#[path = "/repo/rbx_reflector/src/patches.rs"]
+mod reflector_patches;
+
+#[derive(Clone, Debug, Serialize, Deserialize)]
+pub struct RegenCase {
+    pub db: GenDb,
+    /// defaults place: (class selector, [(slot selector, value seed)], number of properties the database does not know)
+    pub place: Vec<(u16, Vec<(u16, u64)>, u8)>,
+    /// DefaultValue patches: (class selector, slot selector, value seed)
+    pub default_patches: Vec<(u16, u16, u64)>,
+}
+
+fn xml_value(name: &str, v: &GVal) -> String {
+    let f = |b: u32| f32::from_bits(b);
+    match v {
+        GVal::Bool(b) => format!("<bool name=\"{name}\">{b}</bool>"),
+        GVal::Int32(i) => format!("<int name=\"{name}\">{i}</int>"),
+        GVal::Int64(i) => format!("<int64 name=\"{name}\">{i}</int64>"),
+        GVal::String(s_) => format!("<string name=\"{name}\">{s_}</string>"),
+        GVal::Float32(b) => format!("<float name=\"{name}\">{}</float>", f(*b)),
+        GVal::Vector3(c) => format!("<Vector3 name=\"{name}\"><X>{}</X><Y>{}</Y><Z>{}</Z></Vector3>", f(c[0]), f(c[1]), f(c[2])),
+        other => format!("<!-- {other:?} -->"),
+    }
+}
+
+fn yaml_value(v: &GVal) -> String {
+    let f = |b: u32| f32::from_bits(b);
+    match v {
+        GVal::Bool(b) => format!("Bool: {b}"),
+        GVal::Int32(i) => format!("Int32: {i}"),
+        GVal::Int64(i) => format!("Int64: {i}"),
+        GVal::String(s_) => format!("String: \"{s_}\""),
+        GVal::Float32(b) => format!("Float32: {:?}", f(*b)),
+        GVal::Vector3(c) => format!("Vector3: [{:?}, {:?}, {:?}]", f(c[0]), f(c[1]), f(c[2])),
+        other => format!("String: \"{other:?}\""),
+    }
+}
+
+fn regen_body(c: &RegenCase, ctx: &mut CaseCtx) -> PropResult {
+    static COUNTER: std::sync::atomic::AtomicU64 = std::sync::atomic::AtomicU64::new(0);
+    let b = build_db(&c.db);
+    let n = c.db.classes.len();
+    let mut db = b.db.clone();
+    for cl in db.classes.values_mut() {
+        cl.default_properties.clear(); // a dump carries no defaults
+    }
+    // which class declares a slot, and how the file spells it
+    let declared_in = |class: usize, slot: u8| -> Option<usize> { b.chains[class].iter().copied().find(|k| db.classes[format!("K{k}").as_str()].properties.contains_key(slot_name(slot).as_str())) };
+    let file_name = |class: usize, slot: u8| -> String {
+        let decl = declared_in(class, slot).unwrap();
+        match &db.classes[format!("K{decl}").as_str()].properties[slot_name(slot).as_str()].kind {
+            PropertyKind::Canonical { serialization: PropertySerialization::SerializesAs(a) } => a.to_string(),
+            _ => slot_name(slot),
+        }
+    };
+    // patches: DefaultValue on the declaring class of a slot
+    let mut yaml = String::from("Change:\n");
+    let mut patch_defaults: Vec<(usize, u8, GVal)> = Vec::new();
+    let mut by_class: std::collections::BTreeMap<usize, Vec<(u8, GVal)>> = Default::default();
+    for (csel, ssel, seed) in &c.default_patches {
+        let class = (*csel as usize * n) >> 16;
+        if b.visible[class].is_empty() {
+            continue;
+        }
+        let slot = b.visible[class][(*ssel as usize * b.visible[class].len()) >> 16];
+        let decl = declared_in(class, slot).unwrap();
+        if by_class.get(&decl).map(|v| v.iter().any(|(s_, _)| *s_ == slot)).unwrap_or(false) {
+            continue;
+        }
+        let v = slot_value(slot, *seed);
+        by_class.entry(decl).or_default().push((slot, v.clone()));
+        patch_defaults.push((decl, slot, v));
+    }
+    for (class, items) in &by_class {
+        yaml.push_str(&format!("  K{class}:\n"));
+        for (slot, v) in items {
+            yaml.push_str(&format!("    {}:\n      DefaultValue:\n        {}\n", slot_name(*slot), yaml_value(v)));
+        }
+    }
+    if by_class.is_empty() {
+        yaml = "Change: {}\n".into();
+    }
+    // defaults place
+    let mut place = String::from("<roblox version=\"4\">");
+    let mut place_expect: Vec<(usize, u8, GVal)> = Vec::new();
+    let mut seen_class: HashSet<usize> = HashSet::new();
+    let mut unknown_written = 0;
+    for (i, (csel, props, unknown)) in c.place.iter().enumerate() {
+        let class = (*csel as usize * n) >> 16;
+        let first = seen_class.insert(class);
+        place.push_str(&format!("<Item class=\"K{class}\" referent=\"R{i}\"><Properties><string name=\"Name\">K{class}</string>"));
+        let mut used: HashSet<u8> = HashSet::new();
+        for (ssel, seed) in props {
+            if b.visible[class].is_empty() {
+                break;
+            }
+            let slot = b.visible[class][(*ssel as usize * b.visible[class].len()) >> 16];
+            if !used.insert(slot) {
+                continue;
+            }
+            let v = slot_value(slot, *seed);
+            place.push_str(&xml_value(&file_name(class, slot), &v));
+            if first {
+                place_expect.push((class, slot, v));
+            }
+        }
+        for k in 0..*unknown {
+            place.push_str(&format!("<bool name=\"FancyNewFlag{k}\">true</bool>"));
+            unknown_written += 1;
+        }
+        place.push_str("</Properties></Item>");
+    }
+    place.push_str("</roblox>");
+    ctx.label_if(unknown_written > 0, "place_has_properties_the_database_does_not_know");
+    ctx.label_if(!patch_defaults.is_empty(), "default_value_patch");
+    ctx.label_if(patch_defaults.iter().any(|(d, _, _)| (0..n).filter(|k| b.chains[*k].contains(d)).count() >= 3), "patch_default_reaches_3_classes");
+    ctx.nontrivial_if(!place_expect.is_empty() || !patch_defaults.is_empty());
+
+    let dir = std::path::PathBuf::from(format!("/verif/target/tmp/regen-{}-{}", std::process::id(), COUNTER.fetch_add(1, std::sync::atomic::Ordering::Relaxed)));
+    let pdir = dir.join("patches");
+    std::fs::create_dir_all(&pdir).map_err(|e| Fail::new("harness:regen-io", e.to_string()))?;
+    let place_path = dir.join("defaults.rbxlx");
+    std::fs::write(pdir.join("p.yml"), &yaml).and_then(|_| std::fs::write(&place_path, &place)).map_err(|e| Fail::new("harness:regen-io", e.to_string()))?;
+    let run = no_panic("rbx_reflector pipeline (patches + defaults)", || -> Result<(), String> {
+        let patches = reflector_patches::Patches::load(&pdir).map_err(|e| format!("Patches::load: {e:#}\n{yaml}"))?;
+        patches.apply_pre_default(&mut db).map_err(|e| format!("apply_pre_default: {e:#}"))?;
+        reflector_defaults::apply_defaults(&mut db, &place_path).map_err(|e| format!("apply_defaults: {e:#}"))?;
+        patches.apply_post_default(&mut db).map_err(|e| format!("apply_post_default: {e:#}"))?;
+        Ok(())
+    });
+    let _ = std::fs::remove_dir_all(&dir);
+    run?.map_err(|e| Fail::new("db:regen:pipeline-error", format!("the pipeline rejects a coherent dump with valid patches and a valid defaults place: {e}")))?;
+
+    // (1) what comes out is a coherent database
+    let problems = coherence(&db);
+    ensure!(
+        problems.is_empty(),
+        format!("db:regen:incoherent:{}", problems[0].0),
+        "the regenerated database is not coherent: {:?}\nplace: {}",
+        problems.iter().take(3).collect::<Vec<_>>(),
+        place.chars().take(600).collect::<String>()
+    );
+    // (2) patch defaults reach the declaring class and every class below it
+    for (decl, slot, v) in &patch_defaults {
+        for k in 0..n {
+            if b.chains[k].contains(decl) {
+                let got = db.classes[format!("K{k}").as_str()].default_properties.get(slot_name(*slot).as_str()).map(|x| GVal::from_variant(x, &|_| GRef::None));
+                ensure!(got.as_ref() == Some(v), "db:regen:patch-default-not-propagated", "DefaultValue patch K{decl}.{} = {:?}: class K{k} ({} levels below) has {:?}", slot_name(*slot), v, b.chains[k].iter().position(|x| x == decl).unwrap(), got);
+            }
+        }
+    }
+    // (3) values of the defaults place become defaults under the canonical name (unless a patch overrides them)
+    for (class, slot, v) in &place_expect {
+        let overridden = patch_defaults.iter().any(|(d, s_, _)| s_ == slot && b.chains[*class].contains(d));
+        if overridden {
+            continue;
+        }
+        let got = db.classes[format!("K{class}").as_str()].default_properties.get(slot_name(*slot).as_str()).map(|x| GVal::from_variant(x, &|_| GRef::None));
+        ensure!(got.as_ref() == Some(v), "db:regen:place-default-lost", "defaults place gives K{class}.{} = {:?}; the database has {:?}", slot_name(*slot), v, got);
+    }
+    // (4) and it works: the lookup API and a write/read through both codecs
+    let names: Vec<String> = (0..n).map(|i| format!("K{i}")).collect();
+    for name in &names {
+        api_agrees(&db, name, &names)?;
+    }
+    Ok(())
+}
+
+fn regen_strategy() -> BoxedStrategy<RegenCase> {
+    (
+        gen_db_strategy(),
+        proptest::collection::vec((any::<u16>(), proptest::collection::vec((any::<u16>(), 1u64..1000), 0..4), prop_oneof![2 => Just(0u8), 1 => 1u8..3]), 0..6),
+        proptest::collection::vec((any::<u16>(), any::<u16>(), 1u64..1000), 0..4),
+    )
+        .prop_map(|(db, place, default_patches)| RegenCase { db, place, default_patches })
+        .boxed()
+}
+
+/// patches/*.yml against the bundled database: what each patch asks for is what the database holds.
+fn patches_agree(db: &ReflectionDatabase) -> Vec<(String, String)> {
+    let mut out = Vec::new();
+    let dir = std::path::Path::new("/repo/patches");
+    let Ok(rd) = std::fs::read_dir(dir) else { return vec![("harness:patches-unreadable".into(), "cannot list /repo/patches".into())] };
+    let mut files: Vec<_> = rd.filter_map(|e| e.ok()).map(|e| e.path()).collect();
+    files.sort();
+    let s = |v: &serde_yaml::Value, k: &str| v.get(k).and_then(|x| x.as_str()).map(|x| x.to_string());
+    for path in files {
+        let Ok(text) = std::fs::read_to_string(&path) else { continue };
+        let doc: serde_yaml::Value = match serde_yaml::from_str(&text) {
+            Ok(d) => d,
+            Err(e) => {
+                out.push(("db:patches:unparsable".into(), format!("{}: {e}", path.display())));
+                continue;
+            }
+        };
+        let Some(change) = doc.get("Change").and_then(|c| c.as_mapping()) else { continue };
+        for (cname, props) in change {
+            let (Some(cname), Some(props)) = (cname.as_str(), props.as_mapping()) else { continue };
+            let Some(class) = db.classes.get(cname) else {
+                out.push(("db:patches:class-missing".into(), format!("{}: class {cname} is not in the database", path.display())));
+                continue;
+            };
+            for (pname, ch) in props {
+                let Some(pname) = pname.as_str() else { continue };
+                let Some(desc) = class.properties.get(pname) else {
+                    out.push(("db:patches:property-missing".into(), format!("{cname}.{pname} is patched but not in the database")));
+                    continue;
+                };
+                if let Some(alias) = s(ch, "AliasFor") {
+                    if !matches!(&desc.kind, PropertyKind::Alias { alias_for } if alias_for.as_ref() == alias) {
+                        out.push(("db:patches:alias".into(), format!("{cname}.{pname}: patch says AliasFor {alias}, database has {:?}", desc.kind)));
+                    }
+                }
+                if let Some(ser) = ch.get("Serialization") {
+                    let want = s(ser, "Type").unwrap_or_default();
+                    let ok = match (&desc.kind, want.as_str()) {
+                        (PropertyKind::Canonical { serialization: PropertySerialization::Serializes }, "Serializes") => true,
+                        (PropertyKind::Canonical { serialization: PropertySerialization::DoesNotSerialize }, "DoesNotSerialize") => true,
+                        (PropertyKind::Canonical { serialization: PropertySerialization::SerializesAs(a) }, "SerializesAs") => Some(a.to_string()) == s(ser, "As"),
+                        (PropertyKind::Canonical { serialization: PropertySerialization::Migrate(m) }, "Migrate") => Some(m.new_property_name.clone()) == s(ser, "To"),
+                        _ => false,
+                    };
+                    if !ok {
+                        out.push(("db:patches:serialization".into(), format!("{cname}.{pname}: patch says {:?}, database has {:?}", ser, desc.kind)));
+                    }
+                }
+                if let Some(dv) = ch.get("DefaultValue") {
+                    if let Ok(v) = serde_yaml::from_value::<Variant>(dv.clone()) {
+                        let want = GVal::from_variant(&v, &|_| GRef::None);
+                        // the patch value is inserted last, into the class and everything below it
+                        for (other, od) in &db.classes {
+                            let below = dbview::chain(db, other).map(|ch| ch.iter().any(|k| k.name == cname)).unwrap_or(false);
+                            if below {
+                                let got = od.default_properties.get(pname).map(|x| GVal::from_variant(x, &|_| GRef::None));
+                                if got.as_ref() != Some(&want) {
+                                    out.push(("db:patches:default".into(), format!("{cname}.{pname}: patch DefaultValue {:?}, class {other} has {:?}", want, got)));
+                                }
+                            }
+                        }
+                    }
+                }
+            }
+        }
+    }
+    out
+}
+
+// ---------------------------------------------------------------------------
 // a database written out and loaded again (what regenerating database.msgpack / database.json does)
 
 fn same_database(a: &ReflectionDatabase, b: &ReflectionDatabase) -> Result<(), String> {
@@ -918,6 +1173,31 @@ pub fn run(ctx: &Ctx) -> PropertyReport {
             }
         }
         rep.push(ctx.run_list("lookups", cases, true, lookup_body));
+    }
+    if sub.runs("patches-vs-database") {
+        let start = std::time::Instant::now();
+        let mut r = SubReport::new("patches-vs-database");
+        r.exhaustive = true;
+        let problems = patches_agree(db);
+        r.evaluations = std::fs::read_dir("/repo/patches").map(|d| d.count() as u64).unwrap_or(0);
+        r.distinct_nontrivial = r.evaluations;
+        r.notes.push("every AliasFor / Serialization / DefaultValue entry of patches/*.yml compared with what the bundled database holds for that property (DefaultValue: for the class and every class below it)".into());
+        let mut seen = HashSet::new();
+        for (key, msg) in problems {
+            if seen.insert(key.clone()) {
+                let replay = crate::engine::write_replay("C16", "patches-vs-database", &serde_json::json!({}), &key, &msg);
+                r.failures.push(crate::engine::Failure { key, msg, replay: Some(replay) });
+            }
+        }
+        r.wall_s = start.elapsed().as_secs_f64();
+        rep.push(r);
+    }
+    if sub.runs("regeneration") {
+        let cases = ctx.cfg.cases(6_000, 200_000);
+        let mut r = ctx.run_prop("regeneration", cases, regen_strategy, regen_body);
+        r.floor("place_has_properties_the_database_does_not_know", cases / 10);
+        r.floor("default_value_patch", cases / 10);
+        rep.push(r);
     }
     if sub.runs("reserialize") {
         let start = std::time::Instant::now();
